@@ -94,6 +94,25 @@ fn frame_case(ctx: &mut Ctx, h: &ADtlsRecordHdr, l: usize, input: &[u8], require
     }
 }
 
+/// the decoded ClientHello seen through the public `ClientHello` accessors must show the encoded values too
+/// (the reference side is read field by field, never through the accessors)
+fn accessor_view_ok(g: &DTLSMessage, exp: &DTLSMessage) -> bool {
+    use tls_parser::ClientHello;
+    let (g, e) = match (g, exp) {
+        (DTLSMessage::Handshake(g), DTLSMessage::Handshake(e)) => match (&g.body, &e.body) {
+            (DTLSMessageHandshakeBody::ClientHello(g), DTLSMessageHandshakeBody::ClientHello(e)) => (g, e),
+            _ => return true,
+        },
+        _ => return true,
+    };
+    g.version().0 == e.version.0
+        && g.random() == e.random
+        && g.session_id() == e.session_id
+        && g.ciphers().iter().map(|c| c.0).eq(e.ciphers.iter().map(|c| c.0))
+        && g.comp().iter().map(|c| c.0).eq(e.comp.iter().map(|c| c.0))
+        && g.ext() == e.ext
+}
+
 fn hs_case(ctx: &mut Ctx, m: &ADtlsHs, x: &[u8], label: &str) {
     let mut input = m.to_bytes();
     let enc_len = input.len();
@@ -112,7 +131,7 @@ fn hs_case(ctx: &mut Ctx, m: &ADtlsHs, x: &[u8], label: &str) {
                     },
                     _ => true,
                 };
-                (out, Some(veq(g, &exp)), g.is_fragment(), frag_addr, format!("{:.300?}", g))
+                (out, Some(veq(g, &exp) && accessor_view_ok(g, &exp)), g.is_fragment(), frag_addr, format!("{:.300?}", g))
             }
             Err(_) => (out, None, false, true, String::new()),
         }
